@@ -66,7 +66,7 @@ def mc_module(name: str, requests, boards, scripts, fault=None) -> Path:
 
 
 def table_cfg(ntricks: int, sync='barrier', close=True, interrupts=False,
-              invs=(), props=(), deadlock=True) -> str:
+              invs=(), props=(), deadlock=True, join='wait') -> str:
     txt = tlc.cfg_text(specification='Spec',
                        constants={'Requests': '<- MCRequests', 'Boards': '<- MCBoards',
                                   'Script': '<- MCScript', 'NTricksM': str(ntricks),
@@ -74,6 +74,7 @@ def table_cfg(ntricks: int, sync='barrier', close=True, interrupts=False,
                                   'CloseOnAbort': 'TRUE' if close else 'FALSE',
                                   'Fault': '<- MCFault',
                                   'Interrupts': 'TRUE' if interrupts else 'FALSE',
+                                  'JoinImpl': f'"{join}"',
                                   'defaultInitValue': '0'},
                        invariants=invs, properties=props, deadlock=deadlock)
     for k in ('Requests', 'Boards', 'Script', 'Fault'):
@@ -83,15 +84,16 @@ def table_cfg(ntricks: int, sync='barrier', close=True, interrupts=False,
 
 GOOD = [(0, 'ns', 18), (1, 'ew', 18), (2, 'ns', 18), (3, 'ew', 18)]
 SAFETY = ['Completed', 'LogPrefix', 'LogCorrect', 'SentComplete', 'AbortLog', 'BarrierShape',
+          'RunReturnsAfterThreads',
           'RejectedGetOneError', 'SeatedAsSpecified', 'PartnersShareTeam']
 
 
 def run_model(chk: Check, what: str, requests, boards, scripts, ntricks, *, fault=None,
               sync='barrier', close=True, interrupts=False, invs=SAFETY,
               props=('TableOnlyGrows',), simulate: Optional[str] = None, depth=None,
-              expect: Optional[str] = None, deadlock=True, workers=12, timeout=3000):
+              expect: Optional[str] = None, deadlock=True, workers=12, timeout=3000, join='wait'):
     d = mc_module('MCTable', requests, boards, scripts, fault)
-    cfg = table_cfg(ntricks, sync, close, interrupts, invs, props, deadlock)
+    cfg = table_cfg(ntricks, sync, close, interrupts, invs, props, deadlock, join)
     kw: Dict[str, Any] = {}
     if simulate:
         kw = dict(simulate=simulate, depth=depth or 800, seed=seed() + 11)
@@ -145,7 +147,11 @@ def design(chk: Check, pid: str, tier: str) -> None:
         run_model(chk, 'Table: 4 seats, 1 passed-out board, every interleaving; no deadlock, '
                        'termination under weak fairness',
                   GOOD, [b0], [script_for(*b0, po, 1, r)], 1,
-                  invs=['Completed', 'BarrierShape'], props=['Termination_'])
+                  invs=['Completed', 'BarrierShape', 'RunReturnsAfterThreads'], props=['Termination_'])
+        run_model(chk, 'Table regression: a bounded join at the end of run() lets run() return while '
+                       'player threads are still alive',
+                  GOOD, [b0], [script_for(*b0, po, 1, r)], 1, join='bounded',
+                  invs=['RunReturnsAfterThreads'], props=[], expect='RunReturnsAfterThreads', workers=8)
         run_model(chk, 'Table regression: the hand-rolled flag barrier of the pinned tree deadlocks',
                   GOOD, [b0], [script_for(*b0, po, 1, r)], 1, sync='flags',
                   invs=['BarrierShape'], props=[], simulate='num=200000', depth=500,
@@ -166,7 +172,8 @@ def design(chk: Check, pid: str, tier: str) -> None:
                       invs=['Completed', 'BarrierShape'], props=[], simulate='num=12', depth=1500,
                       workers=16)
     elif pid in ('C08', 'C10', 'C11'):
-        invs = ['Completed', 'LogPrefix', 'LogCorrect', 'SentPrefix', 'SentComplete']
+        invs = ['Completed', 'LogPrefix', 'LogCorrect', 'SentPrefix', 'SentComplete',
+                'RunReturnsAfterThreads']
         b1 = small_board(r, 1, seed() % 4, 1)
         if quick:
             run_model(chk, 'Table: log and per-connection streams equal the sequential meaning '
